@@ -20,12 +20,97 @@ def parseKeyVal (j : Json) : Option KeyVal :=
           | .ok v => (jInt? v).map KeyVal.int
           | .error _ => none
 
-/-- ["key.join", [vals]] -> string -/
+
+def kvTag : KeyVal → String
+  | .str s => "s:" ++ String.ofList s
+  | .bytes s => "b:" ++ String.ofList s
+  | .uint n => "u:" ++ toString n
+  | .int n => "i:" ++ toString n
+  | .nil => "nil"
+
+/-- [kv, zero] -/
+def parseKeyComp (j : Json) : Option KeyComp := do
+  let a ← jArr? j
+  let v ← parseKeyVal (arg a 0)
+  let z ← jBool? (arg a 1)
+  some ⟨v, z⟩
+
+/-- [addr, [[kv, zero]…]] -/
+def parseIdRow (j : Json) : Option IdRow := do
+  let a ← jArr? j
+  let addr ← jNat? (arg a 0)
+  let key ← (← jArr? (arg a 1)).toList.mapM parseKeyComp
+  some ⟨addr, key⟩
+
+/-- [id, [kv…]] -/
+def parseKChild (j : Json) : Option KChild := do
+  let a ← jArr? j
+  let id ← jNat? (arg a 0)
+  let fk ← (← jArr? (arg a 1)).toList.mapM parseKeyVal
+  some ⟨id, fk⟩
+
+def idMapJ (m : IdMap) : Json :=
+  Json.mkObj [
+    ("groups", Json.arr (m.groups.map (fun g => Json.arr #[Json.str (String.ofList g.1), natListJ g.2])).toArray),
+    ("values", Json.arr (m.values.map (fun t => strListJ (t.map kvTag))).toArray)]
+
+def parseJoinRef (j : Json) : Option JoinRef := do
+  let a ← jArr? j
+  let own ← jBool? (arg a 0)
+  let pk ← jStr? (arg a 1)
+  let fk ← jStr? (arg a 2)
+  let pv ← jStr? (arg a 3)
+  some ⟨own, pk.toList, fk.toList, pv.toList⟩
+
+def onAtomStr : OnAtom → String
+  | .ownEq p c => "P." ++ String.ofList p ++ "=A." ++ String.ofList c
+  | .relEq p c => "P." ++ String.ofList p ++ "=A." ++ String.ofList c
+  | .constEq c v => "A." ++ String.ofList c ++ "='" ++ String.ofList v ++ "'"
+  | .scope n => "scope" ++ toString n
+  | .user n => "user" ++ toString n
+
+/-- JVal JSON: null = nil pointer, [[name, value]…] = struct with the listed relation fields (depth-bounded) -/
+def parseJVal : Nat → Json → JVal
+  | 0, _ => .nilp
+  | fuel + 1, j =>
+    match jArr? j with
+    | none => .nilp
+    | some a => .obj (a.toList.filterMap (fun kv =>
+        match jArr? kv with
+        | some p => (jStr? (arg p 0)).map (fun k => (k.toList, parseJVal fuel (arg p 1)))
+        | none => none))
+
+def dedupNat (l : List Nat) : List Nat := l.foldl (fun acc a => if acc.contains a then acc else acc ++ [a]) []
+
+/-- ["key.join", [vals]] -> string
+    ["id.slice", [rows]] / ["id.struct", row] -> {groups, values}
+    ["preload.direct", [parents], [children]] -> [[addr, [child ids]]…] (distinct addresses, first-seen order)
+    ["join.on", [refs], queryClauses, userOn] -> [atoms]
+    ["entry.walk", value, [hops]] -> bool (true = completes, false = nil dereference) -/
 def handleC11 (op : String) (args : Array Json) : Option Json := do
   match op with
   | "key.join" =>
     let vs ← (← jArr? (arg args 1)).toList.mapM parseKeyVal
     some (Json.str (String.ofList (toStringKey vs)))
+  | "id.slice" =>
+    let rows ← (← jArr? (arg args 1)).toList.mapM parseIdRow
+    some (idMapJ (identitySlice rows))
+  | "id.struct" =>
+    let r ← parseIdRow (arg args 1)
+    some (idMapJ (identityStruct r))
+  | "preload.direct" =>
+    let ps ← (← jArr? (arg args 1)).toList.mapM parseIdRow
+    let cs ← (← jArr? (arg args 2)).toList.mapM parseKChild
+    let addrs := dedupNat (ps.map (·.addr))
+    some (Json.arr (addrs.map (fun a => Json.arr #[natJ a, natListJ (preloadDirect ps cs a)])).toArray)
+  | "entry.walk" =>
+    let hops ← (← jArr? (arg args 2)).toList.mapM jStr?
+    some (Json.bool (entryWalk (parseJVal 16 (arg args 1)) (hops.map String.toList)))
+  | "join.on" =>
+    let refs ← (← jArr? (arg args 1)).toList.mapM parseJoinRef
+    let qc ← jNat? (arg args 2)
+    let un ← jNat? (arg args 3)
+    some (strListJ ((joinOnAtoms refs qc un).map onAtomStr))
   | _ => none
 
 end Gorm.Drv
